@@ -35,4 +35,69 @@ def reorderSortedBad (sortFrags : List (List Nat) → List (List Nat)) (frags : 
 def block (flat : List Nat) (sizes : List Nat) (i : Nat) : List Nat :=
   (flat.drop ((sizes.take i).sum)).take (sizes.getD i 0)
 
+/-! ### `ONIOMProblemDecomposition.distribute_atoms`: who gets which atoms
+
+Atoms are integer points (the harness uses coordinates that are multiples of 10 and link factors `num/10`, so that
+the capping position `factor·(leaving − staying) + staying` is an integer point too).  The loop of the code assigns
+`fragment.geometry = self.geometry` (the SAME list object) to a fragment without atom selection and extends fragment
+geometries in place with the capping atoms; the model keeps that aliasing: such a fragment is stored as `none` and
+reads the system geometry as it is at the end. -/
+
+abbrev Atom := Int × Int × Int
+
+inductive Sel where
+  | all                      -- `selected_atoms is None`
+  | first (n : Nat)          -- an int: the first n atoms
+  | idx (l : List Nat)       -- a list of atom indices
+deriving Repr
+
+structure LinkSpec where
+  staying : Nat
+  leaving : Nat
+  num : Int                  -- factor = num / 10
+deriving Repr
+
+structure FragSpec where
+  sel : Sel
+  links : List LinkSpec
+deriving Repr
+
+/-- `Link.relink` for a single capping atom; `none`: an index outside the geometry (IndexError) -/
+def capOf (geom : List Atom) (l : LinkSpec) : Option Atom :=
+  match geom[l.staying]?, geom[l.leaving]? with
+  | some s, some v => some (l.num * (v.1 - s.1) / 10 + s.1, l.num * (v.2.1 - s.2.1) / 10 + s.2.1, l.num * (v.2.2 - s.2.2) / 10 + s.2.2)
+  | _, _ => none
+
+def selectAtoms (geom : List Atom) : Sel → Option (List Atom)
+  | .all => some geom
+  | .first n => some (geom.take n)
+  | .idx l => l.mapM (fun i => geom[i]?)
+
+/-- what a fragment should receive, as a function of the system geometry and of ITS OWN specification only -/
+def fragGeom (geom : List Atom) (f : FragSpec) : Option (List Atom) := do
+  let sel ← selectAtoms geom f.sel
+  let caps ← f.links.mapM (capOf geom)
+  pure (sel ++ caps)
+
+structure DistSt where
+  sys : List Atom
+  /-- `none`: the fragment holds the system list object itself -/
+  frags : List (Option (List Atom))
+
+/-- one iteration of the loop over the fragments, with the aliasing of the code -/
+def distStep (st : DistSt) (f : FragSpec) : Option DistSt :=
+  match f.sel with
+  | .all =>
+    -- `fragment.geometry += li.relink(self.geometry)` extends the system list itself, link after link
+    (f.links.foldlM (fun (g : List Atom) li => (capOf g li).map (fun c => g ++ [c])) st.sys).map
+      (fun g => { sys := g, frags := st.frags ++ [none] })
+  | sel => do
+    let own ← selectAtoms st.sys sel
+    let caps ← f.links.mapM (capOf st.sys)
+    pure { st with frags := st.frags ++ [some (own ++ caps)] }
+
+/-- the geometries of all fragments after the loop (aliases resolved) -/
+def distribute (geom : List Atom) (fs : List FragSpec) : Option (List (List Atom)) :=
+  (fs.foldlM distStep { sys := geom, frags := [] }).map (fun st => st.frags.map (fun g => g.getD st.sys))
+
 end Tangelo.Decomp
